@@ -109,6 +109,9 @@ func newType(typeName string, old ast.LlvmNode, index map[string]*ast.TypeDef, t
 		track[typeName] = true
 		newIdent := localIdent(old.Name())
 		newName := getTypeName(newIdent)
+		if _, ok := index[newName]; !ok {
+			return nil, errors.Errorf("unable to locate type identifier %q", enc.TypeName(newName))
+		}
 		newTyp := index[newName].Typ()
 		return newType(newName, newTyp, index, track)
 	default:
